@@ -16,3 +16,4 @@ open TFVerif.C17
 #print axioms fit_without_target_raises
 #print axioms unseen_raises
 #print axioms state_dict_roundtrip
+#print axioms name_clash_breaks_bijection
